@@ -190,6 +190,23 @@ theorem imperiali_ok : (∀ k, 0 < imperiali k) ∧ StrictMono imperiali := by
   push_cast
   linarith
 
+/-- The translated built-in divisors ARE the textbook sequences (D'Hondt k+1, Sainte-Laguë 2k+1, Imperiali k/2+1,
+    Danish 3k+1, Macau 2^k), and the wrapper replaces exactly the divisor of order 0.  A change of divisor.py that
+    alters any value breaks this theorem on regeneration. -/
+theorem divisor_values :
+    (∀ k : Nat, d_hondt k = (k : Rat) + 1) ∧ (∀ k : Nat, sainte_lague k = 2 * (k : Rat) + 1) ∧
+    (∀ k : Nat, imperiali k = (k : Rat) / 2 + 1) ∧ (∀ k : Nat, danish k = 3 * (k : Rat) + 1) ∧
+    (∀ k : Nat, macau k = (2 : Rat) ^ k) ∧
+    (∀ (f : Nat → Rat) (a : Rat), modified_first_coef f a 0 = a ∧ ∀ k, modified_first_coef f a (k + 1) = f (k + 1)) := by
+  refine ⟨?_, ?_, ?_, ?_, ?_, ?_⟩
+  · intro k; unfold d_hondt; push_cast; ring
+  · intro k; unfold sainte_lague; push_cast; ring
+  · intro k; unfold imperiali; push_cast; ring
+  · intro k; unfold danish; push_cast; ring
+  · intro k; unfold macau; push_cast; ring
+  · intro f a
+    refine ⟨by simp [modified_first_coef], fun k => by simp [modified_first_coef]⟩
+
 /-- `modified_first_coef f a`: positive, and non-decreasing as long as the first coefficient does not exceed `f 1`;
     strictly increasing when it is strictly below `f 1`. -/
 theorem modified_first_ok (f : Nat → Rat) (a : Rat) (hf : (∀ k, 0 < f k) ∧ StrictMono f) (ha : 0 < a) (ha1 : a ≤ f 1) :
